@@ -165,6 +165,7 @@ impl GraphEngine {
     }
 
     pub(crate) fn publish_read_guard(&self) -> std::sync::RwLockReadGuard<'_, ()> {
+        vread!("publish_lock", self.publish_lock);
         self.publish_lock.read().unwrap()
     }
 
@@ -199,6 +200,7 @@ impl GraphEngine {
     }
 
     pub fn begin_read(&self) -> Snapshot {
+        vread!("publish_lock", self.publish_lock);
         let _publish = self.publish_lock.read().unwrap();
         self.begin_read_published()
     }
@@ -541,7 +543,9 @@ impl GraphEngine {
 
         vpoint!("compact.after_wal");
         // 4. Update memory state (atomically with respect to snapshot creation)
+        vwrite!("publish_lock", self.publish_lock);
         let _publish = self.publish_lock.write().unwrap();
+        let _vh_publish = vheld!("publish_lock");
         self.checkpoint_txid.store(up_to_txid, Ordering::SeqCst);
         vpoint!("compact.after_checkpoint_txid");
         self.properties_root.store(current_root, Ordering::SeqCst);
@@ -1209,7 +1213,9 @@ impl<'a> WriteTxn<'a> {
 
         // 3. Apply created nodes to IdMap / Node Index.  From here to the end the pieces of
         // the transaction become visible; snapshots are held off until all of them are.
+        vwrite!("publish_lock", self.engine.publish_lock);
         let _publish = self.engine.publish_lock.write().unwrap();
+        let _vh_publish = vheld!("publish_lock");
         {
             vlock!("idmap", self.engine.idmap);
             let mut idmap = self.engine.idmap.lock().unwrap();
